@@ -22,7 +22,9 @@ class UpdaterModel:
     def __init__(self, prog):
         self.prog = prog
         self.n = 0
-        self.ex = Exec(prog, env=[(r'(^|::)extract_bound_from_tracking$', self.h_extract), (r'^<W as ShmWrite>::write$', self.h_publish)])
+        self.ex = Exec(prog, env=[(r'(^|::)extract_bound_from_tracking$', self.h_extract), (r'^<W as ShmWrite>::write$', self.h_publish),
+                                  (r'^<W as ShmWrite>::(?!write$)\w+$', self.h_writer_other)])
+        self.writer_queries = []
         self.ex.const_hooks = time_consts()
         names = prog.struct_fields.get('ShmUpdater') or []
         want = ['writer', 'max_drift_ppb', 'shm_clock_state', 'bound_nsec', 'as_of', 'reserved1']
@@ -50,12 +52,32 @@ class UpdaterModel:
         self.cur = (b, c, ref)
         f = {n: Opaque('tracking.' + n) for n in TRACKING_FIELDS}
         f['ref_time'] = Struct([ref])
+        # the leap status of the report, should the updater look at it itself: any value consistent with the class (a class-1 report
+        # has leap <= 2; leap > 3 is class 0; leap 3 is never class 1)
+        leap = z3.Int('ext_leap_%d' % self.n)
+        self.ex.side.append(z3.And(leap >= 0, leap < 65536, z3.Implies(c == 1, leap <= 2), z3.Implies(leap > 3, c == 0), z3.Implies(leap == 3, c != 1)))
+        f['leap_status'] = leap
+        self.last_leap = leap
         return Struct([f[n] for n in TRACKING_FIELDS]), (b, c), ref
 
     def h_extract(self, ex, st, callee, args, fn):
         b, c, ref = self.cur
         st.trace = st.trace + (Event('extract', (args[0],), (b, c)),)
         return Struct([b, Enum(c, {})])
+
+    def h_writer_other(self, ex, st, callee, args, fn):
+        # any other method of the ShmWrite trait: the writer is the environment (the real ShmWriter sits on a segment a previous daemon
+        # may have left in any state), so the call returns an arbitrary value of its declared type
+        from mirsym.seqlock import symbolic_of_type
+        name = callee.strip().rsplit('::', 1)[-1]
+        impls = [f for f in self.prog.find(name, self_ty='ShmWriter')] or [f for lst in self.prog.fns.values() for f in lst if f.name.endswith('::' + name) and 'ShmWrite' in f.name]
+        ret = impls[0].ret if impls else None
+        v = symbolic_of_type(ex, ret, 'writer_%s_%d' % (name, len(self.writer_queries))) if ret else None
+        if v is None:
+            raise EngineError('ShmWrite::%s: return type %r not modelled' % (name, ret))
+        self.writer_queries.append(name)
+        st.trace = st.trace + (Event('writer_query', (name,), v),)
+        return v
 
     def h_publish(self, ex, st, callee, args, fn):
         rec = ex.deref(st, args[1])
@@ -67,6 +89,17 @@ class UpdaterModel:
         if len(outs) != 1:
             raise EngineError('ShmUpdater::new has %d paths' % len(outs))
         return outs[0].value
+
+    def fresh_updaters(self, drift):
+        """every returning path of ShmUpdater::new (it may ask its writer about the segment): [(state carrying the path condition, updater)]"""
+        outs = [o for o in self.ex.run(self.f_new, [Opaque('writer'), drift], State()) if o.kind == 'return']
+        if not outs:
+            raise EngineError('ShmUpdater::new has no returning path')
+        res = []
+        for o in outs:
+            st = State(); st.pc = list(o.state.pc); st.trace = tuple(e for e in o.state.trace if e.kind == 'writer_query')
+            res.append((st, o.value))
+        return res
 
     def arbitrary_updater(self, drift, tag=''):
         """an updater in an arbitrary state: any bound, any as_of, FSM in any of its three states.
@@ -114,10 +147,11 @@ def rec_fields(rec):
 def run_history(um, H, drift):
     """symbolic history of H steps from a fresh updater. Each step is chosen by a symbolic kind:
     0 = report, 1 = missing within grace, 2 = missing beyond grace.  returns list of step descriptions"""
-    u0 = um.fresh_updater(drift)
-    st = State(); st.mem[(0, 'u')] = u0
+    states = []                  # (state, list of per-step dicts)
+    for st, u0 in um.fresh_updaters(drift):
+        st.mem[(0, 'u')] = u0
+        states.append((st, []))
     steps = []
-    states = [(st, [])]          # (state, list of per-step dicts)
     for i in range(H):
         nxt = []
         for st, hist in states:
@@ -128,7 +162,7 @@ def run_history(um, H, drift):
                     um.dom_vars.append(phc); um.asof_vars += [as_s, as_n]
                     trk, ext, ref = um.new_report()
                     outs = um.step_report(s2, phc, Struct([as_s, as_n]), trk)
-                    info = dict(kind=0, phc=phc, as_s=as_s, as_n=as_n, ext=ext, ref=ref)
+                    info = dict(kind=0, phc=phc, as_s=as_s, as_n=as_n, ext=ext, ref=ref, leap=getattr(um, 'last_leap', None))
                 else:
                     outs = um.step_missing(s2, z3.BoolVal(kind == 1))
                     info = dict(kind=kind)
@@ -175,7 +209,7 @@ def hist_domain(hist):
     return dom
 
 
-def native_history(rp, m, hist, drift_val):
+def native_history(rp, m, hist, drift_val, stale_variant=False, prefix=(), cmd='history'):
     """replay a concrete history on the real ShmUpdater; extract's outcome classes are realised by real trackings:
     class 1: leap 0 fresh; class 2: leap 3; class 0: leap 7; the extracted bound is realised through root_dispersion."""
     toks = [str(drift_val)]
@@ -188,6 +222,19 @@ def native_history(rp, m, hist, drift_val):
             ms = min(b // 10 ** 6, 10 ** 6)
             disp = ms / 1000.0
             age = REF_BASE - (mval(m, d['ref']) if mval(m, d['ref']) is not None else REF_BASE - 10 ** 6)
+            ml = mval(m, d['leap']) if d.get('leap') is not None else None
+            if c == 2 and ((ml is not None and ml <= 2) or (stale_variant and ml is None)):
+                # the other way a report is FreeRunning-class: leap status "synchronised" with a reference time older than 8 update intervals
+                leap = ml if ml is not None else 0; age = 10 ** 12
+            elif c == 1 and ml is not None and ml <= 2:
+                leap = ml
+            elif c == 0 and ml is not None and ml > 3:
+                leap = ml
+            elif c == 0 and ml is not None and ml <= 3:
+                # Unknown-class with a valid leap status: a reference time in the future
+                leap = ml; age = -10 ** 9
+            if stale_variant and c == 2:
+                leap = 0 if leap == 3 else leap; age = 10 ** 12
             phc = max(0, min(mval(m, d['phc']) or 0, 2 ** 40))
             toks.append('R,%s,%s,%s,%s,%d,%d,%d,%d,%d' % (f64_hex(0.0), f64_hex(0.0), f64_hex(disp), f64_hex(16.0), leap, age, phc, mval(m, d['as_s']), mval(m, d['as_n'])))
             expect.append(('R', c, ms, phc, b, mval(m, d['as_s']), mval(m, d['as_n'])))
@@ -195,7 +242,7 @@ def native_history(rp, m, hist, drift_val):
             toks.append('G'); expect.append(('G',))
         else:
             toks.append('N'); expect.append(('N',))
-    out = rp.ask('history ' + ' '.join(toks))
+    out = rp.ask(cmd + ' ' + ' '.join(toks[:1] + list(prefix) + toks[1:]))
     return out, expect
 
 
@@ -288,6 +335,57 @@ def report_status_part(ck, prog, seed, tier):
     rp.close()
     ck.absorb(pr, 'updater: ')
     ck.cov['report_status_histories'] = nh
+    ck.cov['counterexamples_replayed'] = ck.cov.get('counterexamples_replayed', 0) + stats[0]
+    ck.cov['counterexamples_confirmed'] = ck.cov.get('counterexamples_confirmed', 0) + stats[1]
+    return H
+
+
+def drift_published_part(ck, prog, seed, tier):
+    """C19, last link: every record the updater publishes - after every history of <= H outcomes from a fresh daemon, whatever the
+    kind of the outcome - carries the configured max_drift_ppb (any u32) and a zero reserved word"""
+    um = UpdaterModel(prog)
+    drift = z3.Int('drift')
+    H = 3 if tier == 'quick' else 4
+    pr = Prover(seed)
+    rp = common.Replay('debug')
+    stats = [0, 0]
+    nside = 0
+    nh = 0
+
+    def confirm_for(hist):
+        def confirm(m):
+            stats[0] += 1
+            dv = mval(m, drift)
+            for variant in (False, True):
+                out, expect = native_history(rp, m, hist, dv, stale_variant=variant)
+                if not out.startswith('ok'):
+                    continue
+                recs = [tuple(int(x) for x in r.split(':')) for r in out.split()[1:]]
+                for i, r in enumerate(recs):
+                    if r[5] != dv:
+                        stats[1] += 1
+                        ck.violation('drift-in-record', 'step %d of the history [%s]%s: the real ShmUpdater (configured with %d ppb) published a record with max_drift_ppb = %d (status %s)'
+                                     % (i + 1, ' '.join(e[0] + (CLS[e[1]][0] if e[0] == 'R' else '') for e in expect), ' (the FreeRunning-class report has a synchronised leap status and a stale reference time)' if variant else '',
+                                        dv, r[5], CLS.get(r[6], r[6])), {'cmd': 'history', 'native': out, 'steps': [str(e) for e in expect]})
+                        return 'drift'
+            return None
+        return confirm
+    for h in range(1, H + 1):
+        hists = run_history(um, h, drift)
+        pr.add(um.ex.side[nside:]); nside = len(um.ex.side)
+        for st, hist in hists:
+            last = hist[-1]
+            if last['rec'] is None:
+                continue
+            nh += 1
+            label = 'history[%s]' % ''.join('RGN'[d['kind']] for d in hist)
+            pcd = z3.And(st.pcond(), *(hist_domain(hist) + [drift >= 0, drift < 2 ** 32]))
+            f = rec_fields(last['rec'])
+            pr.prove_cegar(label + '/the record published last carries the configured max_drift_ppb and reserved = 0', pcd, z3.And(f[5] == drift, f[6] == 0), confirm_for(hist), lambda m: [],
+                           hints=[[drift == 1000], [drift == 4294967000]])
+    rp.close()
+    ck.absorb(pr, 'updater: ')
+    ck.cov['drift_in_record_histories'] = nh
     ck.cov['counterexamples_replayed'] = ck.cov.get('counterexamples_replayed', 0) + stats[0]
     ck.cov['counterexamples_confirmed'] = ck.cov.get('counterexamples_confirmed', 0) + stats[1]
     return H
@@ -396,13 +494,15 @@ def message_loop_part(ck, prog, seed):
         rp = common.Replay('debug')
         R = lambda leap, disp, a_s: 'R,%s,%s,%s,%s,%d,%d,%d,%d,%d' % (f64_hex(0.0), f64_hex(0.0), f64_hex(disp), f64_hex(16.0), leap, 10 ** 6, 0, a_s, 5)
         seqs = [[R(0, 0.001, 10), R(3, 0.002, 11)], [R(0, 0.001, 10), R(0, 0.002, 11), R(3, 0.003, 12)], [R(0, 0.001, 10), 'G', R(3, 0.002, 12)], [R(3, 0.001, 10), R(0, 0.002, 11)],
-                [R(0, 0.001, 10), 'N', R(0, 0.002, 12), R(7, 0.003, 13)], ['G', R(0, 0.001, 10), R(0, 0.002, 11)]]
+                [R(0, 0.001, 10), 'N', R(0, 0.002, 12), R(7, 0.003, 13)], ['G', R(0, 0.001, 10), R(0, 0.002, 11)],
+                # every kind of outcome message (PG / PN: the PHC error bound could not be read, within / beyond the grace period)
+                [R(0, 0.001, 10), 'PN'], [R(0, 0.001, 10), 'PG', 'PG', 'PN', 'PN'], ['PN', R(0, 0.001, 10), 'PG'], [R(0, 0.001, 10), 'G', 'N', 'PG', 'PN', R(0, 0.002, 15)]]
         hit = False
         for sq in seqs:
-            a_ = rp.ask('history 1000 ' + ' '.join(sq)); b_ = rp.ask('msgloop 1000 ' + ' '.join(sq))
+            a_ = rp.ask('history 1000 ' + ' '.join({'PG': 'G', 'PN': 'N'}.get(x, x) for x in sq)); b_ = rp.ask('msgloop 1000 ' + ' '.join(sq))
             if a_.startswith('ok') and b_ != a_:
                 ck.violation('publication-count', 'the outcome sequence %s queued in the writer thread\'s mailbox: the real message loop published %s ; one record per outcome, each from its own message, is %s'
-                             % (' '.join(x[0] + (x.split(',')[5] if x[0] == 'R' else '') for x in sq), b_[3:200], a_[3:200]), {'cmd': 'msgloop 1000 ' + ' '.join(sq), 'native': b_, 'history': a_})
+                             % (' '.join((x[0] + x.split(',')[5]) if x[0] == 'R' else x for x in sq), b_[3:200], a_[3:200]), {'cmd': 'msgloop 1000 ' + ' '.join(sq), 'native': b_, 'history': a_})
                 hit = True; break
         rp.close()
         if not hit:
@@ -436,6 +536,22 @@ def run_check(prop, tier, seed):
                     ck.violation(key, '%s  [history %s, real ShmUpdater (%s)]' % ('; '.join(bad[:2]), ' '.join(e[0] + (CLS[e[1]][0] if e[0] == 'R' else '') for e in expect), prof),
                                  {'cmd': 'history', 'native': out, 'steps': [str(e) for e in expect]})
                     return bad[0]
+            if um.writer_queries and prop == 'C09':
+                # the updater asks its writer about the segment: replay the history as the SECOND life of a daemon whose first life
+                # only ever published the placeholder (real ShmWriter on a real file, record read back from the file after every step)
+                for first_life in (['N'], ['G', 'N']):
+                    out, expect = native_history(rp, m, hist, dv, prefix=first_life + ['X'], cmd='historyseg')
+                    if not out.startswith('ok') or '|' not in out.split():
+                        continue
+                    toks = out.split()[1:]
+                    second = toks[toks.index('|') + 1:]
+                    bad = [b for b in oracle_history('ok ' + ' '.join(second), expect, dv, prop) if b.startswith(prop)]
+                    if bad:
+                        stats[1] += 1
+                        ck.violation('status-before-first-measurement', '%s  [a daemon that never saw a synchronised report published %s and stopped; restarted on the same segment, history %s, real ShmUpdater over the real ShmWriter]'
+                                     % ('; '.join(bad[:2]), ' '.join(first_life), ' '.join(e[0] + (CLS[e[1]][0] if e[0] == 'R' else '') for e in expect)),
+                                     {'cmd': 'historyseg', 'native': out, 'steps': [str(e) for e in expect]})
+                        return bad[0]
             return None
         return confirm
     # ---- histories from a fresh daemon
